@@ -39,7 +39,7 @@ chk("C07", "proof",
     "indefinite()/integral() of Poly0..7 and through Segment<T>: z3 proves constant term 0 and c0 exact (FP), every coefficient within (2u+u^2) relative of c_i/(i+1), F(knot.x)=knot.y and F(b)-F(a)=exact integral for all reals (exact arithmetic), knot-residual bound 4(n+3)u per monomial, derivative(indefinite(p)) within (2u+u^2) of p.",
     "Standard rounding model; no input bound otherwise.", SMT, E2, "DESIGN.md §4 C07")
 chk("C08", "proof",
-    "derivative() of Poly0..8 and Segment<T>: z3 proves power-of-two lanes exact (FP, all finite inputs), every lane within (2u+u^2) relative of (i+1)c_(i+1), value identity p'(x) in exact arithmetic; Kani proves Piecewise::derivative keeps length, order and breakpoints and differentiates each piece once.",
+    "derivative() of Poly0..8 and Segment<T>: z3 proves power-of-two lanes exact (FP, all finite inputs), every lane within (2u+u^2) relative of (i+1)c_(i+1), value identity p'(x) in exact arithmetic; Kani proves Piecewise::derivative keeps length, order and breakpoints and differentiates each piece once. In addition Piecewise::derivative and Segment::derivative are executed from the MIR on 0..257 (thorough 1000) symbolic segments with the piece-level derivative uninterpreted: one application per piece, in order, every breakpoint and the number of pieces kept, on every path (so value-dependent shortcuts such as a special case for an infinite end are seen).",
     "Piecewise structure for 1..3 (4) segments with a logging piece type.", SMT + "; Kani structure harnesses", BOTH, "DESIGN.md §4 C08")
 chk("C09", "proof",
     "integral()/indefinite() of Log<Poly0..8> and evaluate of IntOfLog<T>/IntOfLogPoly4 executed symbolically; with ln v a free real per point, 'F - G is constant' (G the textbook antiderivative) and F(knot.x)=knot.y are polynomial identities z3 decides for all degrees; counterexamples replay natively against a 60-digit reference. Found and fixed the missing factor v in IntOfLog::evaluate.",
@@ -50,7 +50,7 @@ chk("C10", "proof",
     "Not reachable: libm accuracy (assumed <= 1 ulp), exp overflow for subnormal v, rounding lanes of the closed form (only its conditioning), a float-by-float sweep near v=1 (replaced by all-x symbolic statements). Geometric majorant and exp monotonicity are pen-and-paper assumptions.",
     SMT, E2, "DESIGN.md §4 C10")
 chk("C11", "proof",
-    "Kani proves Piecewise::integral/indefinite and both segment iterators equal, bit for bit, the property's running-knot recurrence (logging pieces, 1..3(4) segments); Piecewise<Poly1|Poly3|Log<Poly1>(...)>::integral is executed symbolically as a whole and z3 proves breakpoints unchanged, first piece through k0, continuity at every interior breakpoint and per-piece antiderivative identities (exact arithmetic).",
+    "Kani proves Piecewise::integral/indefinite and both segment iterators equal, bit for bit, the property's running-knot recurrence (logging pieces, 1..3(4) segments); Piecewise<Poly1|Poly3|Log<Poly1>(...)>::integral is executed symbolically as a whole and z3 proves breakpoints unchanged, first piece through k0, continuity at every interior breakpoint and per-piece antiderivative identities (exact arithmetic). In addition Piecewise::integral, indefinite and both segment iterators are executed from the MIR on 0..257 (thorough 1000) symbolic segments with Segment::integral / indefinite and the piece evaluate uninterpreted: piece i is Segment::integral(seg_i, (end_(i-1), F_(i-1)(end_(i-1)))) resp. indefinite for the first piece, by-value and by-reference iterators give the same terms; counterexamples are replayed natively against the property's value statement (through k0, continuity, antiderivative), not against one construction.",
     "F(t)=k0.y+integral follows by the fundamental theorem of calculus (mathematical step); rounding at breakpoints is one subtraction per piece (bounded per piece by C07/C09).",
     BMC + "; " + SMT, BOTH, "DESIGN.md §4 C11")
 chk("C12", "model_checking",
@@ -65,8 +65,8 @@ chk("C14", "proof",
     "All 61 operator impls found in the MIR dump (129 instantiations over Poly0..8, Log<T>, IntOfLog<T>, IntOfLogPoly4, PolyN) are executed symbolically in bit-precise binary64; z3 proves every output number equals the correctly rounded scalar operation on the matching input number(s) for ALL finite inputs, `*=` == `*`, translate touches only the additive constant; pointwise value statements by exact-arithmetic linearity.",
     "Finite inputs (as the property states); results compared with fp.eq (signed zeros identified).", SMT, E2, "DESIGN.md §4 C14")
 chk("C15", "model_checking",
-    "Kani/CBMC decides for *, *=, unary -, translate (and derivative) on Segment<T> and Piecewise<T> (1..3(4) pieces, ends any f64 incl. NaN, any scalar): number, order and breakpoints bit-identical, each piece receives the operation exactly once with that scalar.",
-    "Generic code monomorphised over a logging piece type; pointwise values follow from C14.", BMC, E1, "DESIGN.md §4 C15")
+    "Kani/CBMC decides for *, *=, unary -, translate (and derivative) on Segment<T> and Piecewise<T> (1..3(4) pieces, ends any f64 incl. NaN, any scalar): number, order and breakpoints bit-identical, each piece receives the operation exactly once with that scalar. In addition the same operators are executed from the MIR on 0..257 (thorough 1000) symbolic segments with the piece-level operation uninterpreted: every piece gets the operation exactly once, in order, with the given scalar, and every breakpoint is kept, on every path.",
+    "Generic code monomorphised over a logging piece type (Kani) / Poly0 with uninterpreted piece operations (MIR); pointwise values follow from C14.", BMC + "; " + SMT, BOTH, "DESIGN.md §4 C15")
 chk("C16", "model_checking",
     "Kani/CBMC decides: NaN-containing query histories keep later non-NaN answers bit-identical to direct evaluation (found and fixed the NaN-poisoning defect); evaluate / evaluator / evaluate_v accept any f64; all per-piece operators, merges, integral/indefinite and linear() return without panic/bounds/overflow failure on well-formed operands; each documented rejection is reachable. MIR path enumeration shows no panic path in linear()/constrained_spline() and the numeric kernels.",
     "Sizes as listed in evidence; constrained_spline on the compiled code is not finished by CBMC (float instrumentation) and is covered by the MIR path enumeration instead.",
